@@ -317,7 +317,7 @@ fn is_global_addr(a: &Multiaddr) -> bool {
         Protocol::Dns(dns) | Protocol::Dns4(dns) | Protocol::Dns6(dns) => Some(dns),
         _ => None,
     }) {
-        return dns == "localhost" || dns.ends_with(".localhost");
+        return !(dns == "localhost" || dns.ends_with(".localhost"));
     }
     false
 }
